@@ -106,7 +106,7 @@ fn built(s: ArchiveSpec) -> Disk {
 
 fn hist(disks: Vec<Disk>, ops: Vec<Op>) -> History {
     let names = pool(&disks);
-    History { disks, names, excl: Excl::all(), ops }
+    History { disks, names, excl: Excl::current(), ops }
 }
 
 fn idx(names: &[String], n: &str) -> NameRef {
@@ -769,5 +769,5 @@ pub fn random_history(rng: &mut impl Rng, mut specs: Vec<ArchiveSpec>) -> Histor
     for _ in 0..n {
         ops.push(random_op(rng, present, names.len(), disks.len()));
     }
-    History { disks, names, excl: Excl::all(), ops }
+    History { disks, names, excl: Excl::current(), ops }
 }
